@@ -3,6 +3,9 @@
 From BW Require Import Merge.
 From BWP Require Import TextFacts Keys_proofs C01_proofs Run_proofs Merge_proofs.
 From Coq Require Import Permutation.
+From BW Require Import Main.
+From BWGen Require Import ExtTable.
+From BWP Require Import Main_proofs.
 
 (* The active validators: the enabled ones if any are given, otherwise all but the disabled ones. *)
 Theorem C14_active : forall en dis v,
@@ -57,3 +60,28 @@ Theorem C14_enable_keeps_exactly : forall o ctx en, en <> [] ->
             (vr_diags (run_validators o ctx (detected_validators [] [] ctx)))).
 Proof. exact enable_keeps_exactly. Qed.
 Print Assumptions C14_enable_keeps_exactly.
+
+(* On the model of main.rs / flags.rs (theories/Main.v): a validator name that is not registered exactly as typed is a usage error (exit status 2) whatever else is on the command line. *)
+Theorem C14_unknown_validator_rejected : forall a s,
+  In s (ca_dis_raw a ++ ca_en_raw a) -> ~ In s validator_names -> plan_of a = Err E_USAGE.
+Proof. exact unknown_validator_is_usage_error. Qed.
+Print Assumptions C14_unknown_validator_rejected.
+
+(* --enable and --disable together are rejected. *)
+Theorem C14_enable_and_disable_rejected : forall a,
+  effective (ca_dis_pre a) (ca_dis_post a) <> [] -> effective (ca_en_pre a) (ca_en_post a) <> [] ->
+  exists e, plan_of a = Err e.
+Proof. exact enable_and_disable_rejected. Qed.
+Print Assumptions C14_enable_and_disable_rejected.
+
+(* A rejected command line ends the run with that error whatever the files, tables and diff are: nothing is validated. *)
+Theorem C14_rejected_before_any_file : forall a e fs fs' tb tb' cd cd', plan_of a = Err e ->
+  main_model a fs tb cd = MFail e /\ main_model a fs' tb' cd' = MFail e.
+Proof. exact flag_errors_touch_no_file. Qed.
+Print Assumptions C14_rejected_before_any_file.
+
+(* An accepted command line runs exactly the modelled validation (detection restricted by the flag sets, C14_enable_exact / C14_disable_exact above) on the case main assembles. *)
+Theorem C14_accepted_run_is_the_modelled_run : forall a p fs tb cd, plan_of a = Ok p -> ca_list a = false ->
+  main_model a fs tb cd = MRun (model_run (rcase_of p (map (effective_file a) fs) tb cd)).
+Proof. exact main_run_is_model_run. Qed.
+Print Assumptions C14_accepted_run_is_the_modelled_run.
